@@ -3,10 +3,11 @@
 (VERIF_REPO points the machinery at the worktree), records which obligations fire in seeded/<id>/meta.json and prints a table."""
 import json, os, re, subprocess, sys
 VERIF = '/verif'
-WT = '/tmp/matrix_wt'
+WT = os.environ.get('MATRIX_WT', '/tmp/matrix_wt')   # one worktree per lane; lanes run in parallel only if their check sets are disjoint
 # which checks are run against which seed: its own property plus the checks that cover the function it touches
 EXTRA = {'C01-m2': ['C08'], 'C13-m1': ['C02', 'C13'], 'C02-m2': ['C02', 'C13'], 'C16-m2': ['C17', 'C16'], 'C17-m2': ['C17', 'C16'], 'C08-m1': ['C08', 'C16'],
-         'C09-m2': ['C09', 'C16'], 'C18-m2': ['C18'], 'C13-m2': ['C13']}
+         'C09-m2': ['C09', 'C16'], 'C18-m2': ['C18'], 'C13-m2': ['C13'], 'C03-m1': ['C11'], 'C03-m2': ['C15'], 'C02-m1': ['C02', 'C18'], 'C05-m2': ['C05', 'C06'], 'C06-m2': ['C06', 'C05'],
+         'C16-m1': ['C16'], 'C17-m1': ['C17', 'C19']}
 claimed = [c['property_id'] for c in json.load(open(os.path.join(VERIF, 'MANIFEST.json')))['checks']]
 
 
